@@ -100,9 +100,11 @@ def stratified(rng, entries, thorough):
         k = min(QUICK_STRATA[cs], len(pool))
         forced = []
         if cs == 'trigonal':
-            forced = [rng.choice([e for e in pool if e['cell_choice'] == 'rhombohedral'])]
+            sub = [e for e in pool if e['cell_choice'] == 'rhombohedral']
+            forced = [rng.choice(sub)] if sub else []
         if cs == 'cubic':
-            forced = [rng.choice([e for e in pool if e['nsymop'] == 192])]
+            sub = [e for e in pool if e['nsymop'] == 192]
+            forced = [rng.choice(sub)] if sub else []
         rest = [e for e in pool if e not in forced]
         pick += forced + rng.sample(rest, max(0, k - len(forced)))
     return pick
@@ -310,10 +312,22 @@ def correspondence(ctx):
 # ------------------------------------------------------------------------------------------------
 # the real group, as the code sees it
 
+def direct_table(sgname):
+    """the table the NAME states, built from the sglib class itself (not through sg.sg, whose look-up is part of what
+    StructureFactor does): number from sgdic under the normalised name, rhombohedral setting iff the normalised name
+    starts and ends with 'r' (the documented rule of sg.py)"""
+    structure, sg, atomlib, tools = _x()
+    from xfab import sglib
+    low = re.sub(r'\s+', '', sgname).lower()
+    klass = getattr(sglib, sg.sgdic[low])
+    cc = 'rhombohedral' if (low[0] == 'r' and low[-1] == 'r') else 'standard'
+    return klass(cell_choice=cc)
+
+
 def group(sgname):
     """operations of sg.sg(sgname=...) : integer rotations, tabulated translations, translations in 24ths, delta"""
     structure, sg, atomlib, tools = _x()
-    o = sg.sg(sgname=sgname)
+    o = direct_table(sgname)
     rot = np.asarray(o.rot, dtype=float)[:o.nsymop]
     R = np.rint(rot).astype(int)
     if not np.array_equal(R, rot):
@@ -330,7 +344,7 @@ def oracle_names():
     structure, sg, atomlib, tools = _x()
     def setting_of(nm):
         try:
-            o = sg.sg(sgname=nm)
+            o = direct_table(nm)
             return o, (int(o.no), str(o.cell_choice))
         except Exception:
             return None, None
